@@ -712,10 +712,10 @@ enum Job {
 
 fn main() {
     let check = Check::from_args("C26", Level::ModelChecking);
-    let big_n = check.pick(10usize, 14);
+    let big_n = check.pick(10usize, 16);
     let dev = check.pick(2usize, 3);
-    let free_budget = check.pick(5usize, 6);
-    let cuts = check.pick(2usize, 3);
+    let free_budget = check.pick(5usize, 7);
+    let cuts = check.pick(2usize, 4);
     check.set_rule(&format!(
         "sync writer: capacity c=M-6 in {{1,2,3,5}}, payload n in 0..={big_n}, every composition of n into write calls, finish and drop; real minimum M in {{1018,1019}} with n in {{0,1,c-1,c,c+1,2c,2c+1}} x chunkings {{whole,1-byte,c,c+1}}; sync transport schedules {{all,1,half,Ok(0),Err}} with <= {dev} deviations; async writer: same payloads, chunkings {{whole,1-byte,c+1}}, every schedule of transport answers {{all,1,half,Pending,Ok(0),Err}} with <= {dev} deviations, and for n <= 2c+1 every schedule of the first {free_budget} answers without deviation bound; reader: 18 reference streams (1-3 P-DATA PDUs x 1-2 PDVs, then A-RELEASE-RQ + 3 bytes), every segmentation with <= {cuts} cuts and the all-1-byte one, read sizes {{1,2,64}}; async reader additionally Pending before <= 2 deliveries. A case is one (configuration, write calls / segmentation); every schedule of it is an execution; non-trivial = the writer/reader ran"
     ));
